@@ -45,6 +45,11 @@ func goify(name string, public bool) string {
 	delim = strings.ReplaceAll(delim, ".", "|") // strace не видит точки!!
 	splitted := strings.Split(delim, "|")
 	for i, item := range splitted {
+		if item == "" {
+			// "a_", "a__b": an underscore that delimits nothing stands for no word
+			continue
+		}
+
 		item = strings.ToLower(item)
 		if dry.SliceContains(capitalizePatterns, item) {
 			item = strings.ToUpper(item)
